@@ -95,7 +95,7 @@ func (in *Interp) jsonClass(data Slice) Term {
 	if !in.jsonClassDeclared {
 		in.sess.Cmd("(declare-fun jsonclass (String) Int)")
 		// the few facts about real JSON syntax the model needs: the empty input is no document, {} is one, {} followed by x is one with trailing bytes
-		in.sess.Cmd(`(assert (and (= (jsonclass "") 2) (= (jsonclass "{}") 0) (= (jsonclass "{} x") 1) (= (jsonclass "x") 2)))`)
+		in.sess.Cmd(`(assert (and (= (jsonclass "") 2) (= (jsonclass "{}") 0) (= (jsonclass "{} x") 1) (= (jsonclass "x") 2) (= (jsonclass "null") 0) (= (jsonclass "null x") 1)))`)
 		in.jsonClassDeclared = true
 	}
 	ts := data.Seq.T.smt()
@@ -117,10 +117,26 @@ func (in *Interp) jsonArbitrary(data Slice, dst *Value, et types.Type, stream bo
 	if !in.branch(wellFormed) {
 		return in.makeErrorString(mkStr("json: invalid document")) // syntax errors leave the target untouched
 	}
-	// syntactically fine: either it fits the target, or a type error is reported after a partial fill
-	switch in.choose([]Term{in.freshBool("json.arbitrary.ok"), mkBool(true)}) {
+	// syntactically fine: it fits the target, or it is the literal null, or a type error is reported after a partial fill
+	switch in.choose([]Term{in.freshBool("json.arbitrary.ok"), in.freshBool("json.arbitrary.null"), mkBool(true)}) {
 	case 0:
 		*dst = in.havoc(et, "jsondoc", 0)
+		return Iface{}
+	case 1:
+		// the JSON value null: maps, pointers, slices and interfaces are set to nil, anything else is left alone; no error
+		if data.Seq != nil && data.Seq.Blob == nil {
+			ts := data.Seq.T
+			if stream {
+				in.assume(tOr(tEq(ts, mkStr("null")), tEq(ts, mkStr("null x"))))
+			} else {
+				in.assume(tEq(ts, mkStr("null")))
+			}
+		}
+		switch et.Underlying().(type) {
+		case *types.Map, *types.Pointer, *types.Slice, *types.Interface:
+			*dst = in.zero(et)
+		}
+		in.trace = append(in.trace, "json: the document is the literal null")
 		return Iface{}
 	}
 	if in.branch(in.freshBool("json.arbitrary.partial")) {
